@@ -44,6 +44,30 @@ func (e *jobErr) Error() string {
 
 func (e *jobErr) Unwrap() error { return e.wrap }
 
+var (
+	nestedOnce sync.Once
+	nestedErr  error
+)
+
+// nestedGoexitErr is the error a scheduler's Wait returns when one of its jobs
+// killed its goroutine: what a task gets back from a nested Flow/Parallel and
+// typically returns as its own error. It is produced once, by a real
+// scheduler that has completely shut down before any case runs
+// (primeNestedErr), so that no goroutine of it is ever seen by a census.
+func nestedGoexitErr() error { return nestedErr }
+
+func primeNestedErr() {
+	nestedOnce.Do(func() {
+		s := scheduler.Config{Concurrency: 1}.New()
+		s.Enqueue(context.Background(), scheduler.Job{Run: func(context.Context) error {
+			runtime.Goexit()
+			return nil
+		}})
+		nestedErr = s.Wait(context.Background())
+		awaitNoSchedGoroutines(5*time.Second, map[int64]bool{})
+	})
+}
+
 // newJobErrs builds the error instance of every job.
 func newJobErrs(jobs []Job) []*jobErr {
 	errs := make([]*jobErr, len(jobs))
@@ -58,6 +82,8 @@ func newJobErrs(jobs []Job) []*jobErr {
 			errs[j].wrap = context.DeadlineExceeded
 		case 2:
 			errs[j].wrap = context.Canceled
+		case 3:
+			errs[j].wrap = nestedGoexitErr()
 		}
 	}
 	return errs
